@@ -1,10 +1,728 @@
-//! C15 — stub: property not yet claimed.
+//! C15 — TLS channels and servers authenticate the peer and insist on HTTP/2.
+//!
+//! One case = one configuration of the property's matrix (plus extension values), run through
+//! REAL rustls handshakes: a tonic `Endpoint` (`tls_config` + `connect_with_connector`) against a
+//! tonic `Server` (`tls_config` + `serve_with_incoming`) — or, for the ALPN variants tonic's own
+//! acceptor cannot produce, against a hand-rolled tokio-rustls acceptor that hands the accepted
+//! TLS streams to a tonic server.  Transport is a loopback TCP socket (127.0.0.1, port 0) or an
+//! in-memory `tokio::io::duplex`.
+//!
+//! case line:
+//!   `tls <scheme> <urihost> <ops…> ; <servercert> <alpn> <srvops> <transport>`
+//! `<ops…>` is the sequence of `ClientTlsConfig` builder calls, in order (may be empty):
+//!   `ca:<ca1|ca2|ica1|junk|broken>`  `cas:<a>+<b>`  `ta:<ca>`  `tas:<a>+<b>` (trust anchors)
+//!   `dom:<good|bad|other|ip|invalid>`  `id:<c1|c2|c1chain|brokencert|nokey>`
+//!   `h2:<0|1>` (assume_http2)  `roots` (with_enabled_roots)
+//! or the single token `notls` (`Endpoint::from_shared`, no `tls_config` call) or `auto`
+//! (`Endpoint::new`, the entry point generated clients use).
+//! `<alpn>`: `h2` = tonic's own `Server::tls_config`; `plain` = tonic server without TLS;
+//! `none|http11|h2first|h2last|h2only` = hand-rolled tokio-rustls acceptor with that ALPN list.
+//! `<srvops>`: `-` or `+`-joined `ServerTlsConfig` calls after `identity`: `ca:<ca>` `opt:<0|1>` `ico:<0|1>`.
+//!
+//! observed line:
+//!   `cfg=<ok|err:…> res=<ok|fail:CLASS> h=<handler runs> peer=<…> ext=<…> plain=<0|1> dial=<0|1>`
 use crate::common::*;
+use std::future::Future;
+use std::io;
+use std::pin::Pin;
+use std::sync::atomic::{AtomicUsize, Ordering};
+use std::sync::{Arc, Mutex};
+use std::task::{Context, Poll};
+use std::time::Duration;
+use tokio::io::{AsyncRead, AsyncWrite, ReadBuf};
+use tokio_rustls::rustls;
+use tokio_rustls::rustls::pki_types::{pem::PemObject, CertificateDer, PrivateKeyDer};
+use tonic::transport::server::{Connected, TcpConnectInfo, TlsConnectInfo};
+use tonic::transport::{Certificate, ClientTlsConfig, Endpoint, Identity, Server, ServerTlsConfig};
 
-pub fn generate(_tier: &str, _rng: &mut Rng) -> Vec<String> {
-    Vec::new()
+macro_rules! pem {
+    ($n:literal) => {
+        include_str!(concat!("../certs/", $n, ".pem"))
+    };
 }
 
-pub fn execute(_case: &str) -> String {
-    "unclaimed".into()
+fn cert_pem(name: &str) -> Option<&'static str> {
+    Some(match name {
+        "ca1" => pem!("ca1"),
+        "ca2" => pem!("ca2"),
+        "ica1" => pem!("ica1"),
+        "s1good" => pem!("s1good"),
+        "s1bad" => pem!("s1bad"),
+        "s2good" => pem!("s2good"),
+        "s1ip" => pem!("s1ip"),
+        "c1" => pem!("c1"),
+        "c2" => pem!("c2"),
+        "c1chain" => pem!("c1chain"),
+        "junk" => "-----BEGIN NOTHING-----\nAAAA\n-----END NOTHING-----\n",
+        "broken" | "brokencert" => "-----BEGIN CERTIFICATE-----\n!!!! not base64 !!!!\n-----END CERTIFICATE-----\n",
+        "nokey" => pem!("c1"),
+        _ => return None,
+    })
+}
+
+fn key_pem(name: &str) -> Option<&'static str> {
+    Some(match name {
+        "s1good" => pem!("s1good.key"),
+        "s1bad" => pem!("s1bad.key"),
+        "s2good" => pem!("s2good.key"),
+        "s1ip" => pem!("s1ip.key"),
+        "c1" => pem!("c1.key"),
+        "c2" => pem!("c2.key"),
+        "c1chain" => pem!("c1chain.key"),
+        "brokencert" => pem!("c1.key"),
+        "nokey" => "-----BEGIN NOTHING-----\nAAAA\n-----END NOTHING-----\n",
+        _ => return None,
+    })
+}
+
+fn ders(pem: &str) -> Vec<Vec<u8>> {
+    CertificateDer::pem_slice_iter(pem.as_bytes())
+        .filter_map(|c| c.ok())
+        .map(|c| c.as_ref().to_vec())
+        .collect()
+}
+
+fn host_of(tok: &str) -> Option<&'static str> {
+    Some(match tok {
+        "good" => "good.test",
+        "bad" => "bad.test",
+        "other" => "other.test",
+        "ip" => "127.0.0.1",
+        "invalid" => "not a name!",
+        _ => return None,
+    })
+}
+
+// ------------------------------------------------------------------------------------------
+// byte tap: everything the client side writes to / reads from the wire
+
+#[derive(Default)]
+struct TapLog {
+    written: Vec<u8>,
+}
+
+struct Tap<IO> {
+    inner: IO,
+    log: Arc<Mutex<TapLog>>,
+}
+
+impl<IO: AsyncRead + Unpin> AsyncRead for Tap<IO> {
+    fn poll_read(mut self: Pin<&mut Self>, cx: &mut Context<'_>, buf: &mut ReadBuf<'_>) -> Poll<io::Result<()>> {
+        Pin::new(&mut self.inner).poll_read(cx, buf)
+    }
+}
+
+impl<IO: AsyncWrite + Unpin> AsyncWrite for Tap<IO> {
+    fn poll_write(mut self: Pin<&mut Self>, cx: &mut Context<'_>, buf: &[u8]) -> Poll<io::Result<usize>> {
+        let r = Pin::new(&mut self.inner).poll_write(cx, buf);
+        if let Poll::Ready(Ok(n)) = &r {
+            let mut l = self.log.lock().unwrap();
+            if l.written.len() < (1 << 20) {
+                l.written.extend_from_slice(&buf[..*n]);
+            }
+        }
+        r
+    }
+    fn poll_flush(mut self: Pin<&mut Self>, cx: &mut Context<'_>) -> Poll<io::Result<()>> {
+        Pin::new(&mut self.inner).poll_flush(cx)
+    }
+    fn poll_shutdown(mut self: Pin<&mut Self>, cx: &mut Context<'_>) -> Poll<io::Result<()>> {
+        Pin::new(&mut self.inner).poll_shutdown(cx)
+    }
+}
+
+fn contains(hay: &[u8], needle: &[u8]) -> bool {
+    !needle.is_empty() && hay.windows(needle.len()).any(|w| w == needle)
+}
+
+const MARKER: &str = "VERIF-C15-PLAINTEXT-MARKER-0123456789";
+const H2_PREFACE: &[u8] = b"PRI * HTTP/2.0";
+
+// ------------------------------------------------------------------------------------------
+// the service: one unary method; records what the handler saw
+
+#[derive(Default)]
+struct Obs {
+    runs: AtomicUsize,
+    peer: Mutex<Vec<String>>,
+}
+
+trait ExtCerts {
+    fn ext_certs(req: &tonic::Request<String>) -> Option<Option<Vec<Vec<u8>>>>;
+}
+impl ExtCerts for tokio::net::TcpStream {
+    fn ext_certs(req: &tonic::Request<String>) -> Option<Option<Vec<Vec<u8>>>> {
+        req.extensions()
+            .get::<TlsConnectInfo<TcpConnectInfo>>()
+            .map(|i| i.peer_certs().map(|v| v.iter().map(|c| c.as_ref().to_vec()).collect()))
+    }
+}
+impl ExtCerts for tokio::io::DuplexStream {
+    fn ext_certs(req: &tonic::Request<String>) -> Option<Option<Vec<Vec<u8>>>> {
+        req.extensions()
+            .get::<TlsConnectInfo<()>>()
+            .map(|i| i.peer_certs().map(|v| v.iter().map(|c| c.as_ref().to_vec()).collect()))
+    }
+}
+
+fn render_certs(seen: Option<&Vec<Vec<u8>>>, presented: &[Vec<u8>]) -> String {
+    match seen {
+        None => "none".into(),
+        Some(v) => format!("{}:{}", v.len(), if v.as_slice() == presented { "eq" } else { "ne" }),
+    }
+}
+
+struct Svc<IO> {
+    obs: Arc<Obs>,
+    presented: Arc<Vec<Vec<u8>>>,
+    _io: std::marker::PhantomData<fn(IO)>,
+}
+impl<IO> Clone for Svc<IO> {
+    fn clone(&self) -> Self {
+        Svc { obs: self.obs.clone(), presented: self.presented.clone(), _io: Default::default() }
+    }
+}
+impl<IO> tonic::server::NamedService for Svc<IO> {
+    const NAME: &'static str = "verif.Tls";
+}
+
+struct Handler<IO>(Svc<IO>);
+impl<IO: ExtCerts> tonic::server::UnaryService<String> for Handler<IO> {
+    type Response = String;
+    type Future = std::future::Ready<Result<tonic::Response<String>, tonic::Status>>;
+    fn call(&mut self, req: tonic::Request<String>) -> Self::Future {
+        let s = &self.0;
+        s.obs.runs.fetch_add(1, Ordering::SeqCst);
+        let api = req.peer_certs().map(|v| v.iter().map(|c| c.as_ref().to_vec()).collect::<Vec<_>>());
+        let ext = IO::ext_certs(&req);
+        let ext_s = match &ext {
+            None => "absent".to_string(),
+            Some(c) => render_certs(c.as_ref(), &s.presented),
+        };
+        s.obs
+            .peer
+            .lock()
+            .unwrap()
+            .push(format!("peer={} ext={}", render_certs(api.as_ref(), &s.presented), ext_s));
+        std::future::ready(Ok(tonic::Response::new(format!("echo:{}", req.get_ref()))))
+    }
+}
+
+impl<IO: ExtCerts + 'static> tower_service::Service<http::Request<tonic::body::Body>> for Svc<IO> {
+    type Response = http::Response<tonic::body::Body>;
+    type Error = std::convert::Infallible;
+    type Future = Pin<Box<dyn Future<Output = Result<Self::Response, Self::Error>> + Send>>;
+    fn poll_ready(&mut self, _: &mut Context<'_>) -> Poll<Result<(), Self::Error>> {
+        Poll::Ready(Ok(()))
+    }
+    fn call(&mut self, req: http::Request<tonic::body::Body>) -> Self::Future {
+        let me = self.clone();
+        Box::pin(async move {
+            let mut grpc = tonic::server::Grpc::new(tonic::codec::ProstCodec::<String, String>::default());
+            Ok(grpc.unary(Handler(me), req).await)
+        })
+    }
+}
+
+// ------------------------------------------------------------------------------------------
+// case
+
+#[derive(Debug, Clone)]
+struct Case {
+    scheme: String,
+    urihost: String,
+    ops: Vec<String>,
+    servercert: String,
+    alpn: String,
+    sops: Vec<String>,
+    transport: String,
+}
+
+fn parse(case: &str) -> Option<Case> {
+    let t: Vec<&str> = case.split(' ').filter(|s| !s.is_empty()).collect();
+    if t.len() < 8 || t[0] != "tls" {
+        return None;
+    }
+    let semi = t.iter().position(|x| *x == ";")?;
+    if semi < 3 || t.len() != semi + 5 {
+        return None;
+    }
+    if !matches!(t[1], "https" | "http" | "HTTPS") {
+        return None;
+    }
+    Some(Case {
+        scheme: t[1].into(),
+        urihost: t[2].into(),
+        ops: t[3..semi].iter().map(|s| s.to_string()).collect(),
+        servercert: t[semi + 1].into(),
+        alpn: t[semi + 2].into(),
+        sops: if t[semi + 3] == "-" { Vec::new() } else { t[semi + 3].split('+').map(|s| s.to_string()).collect() },
+        transport: t[semi + 4].into(),
+    })
+}
+
+/// Applies the builder calls in order; returns the config (None = `notls`) and the identity the
+/// client ends up presenting as far as the *harness* can tell syntactically (last `id:` op; the
+/// model decides what survives `roots`).
+fn anchor(name: &str) -> Option<rustls::pki_types::TrustAnchor<'static>> {
+    // RootCertStore::add does the webpki conversion; `roots` is its public field
+    let mut st = rustls::RootCertStore::empty();
+    for d in ders(cert_pem(name)?) {
+        st.add(CertificateDer::from(d)).ok()?;
+    }
+    st.roots.into_iter().next()
+}
+
+fn build_client_cfg(ops: &[String]) -> Option<Option<ClientTlsConfig>> {
+    if ops.len() == 1 && (ops[0] == "notls" || ops[0] == "auto") {
+        return Some(None);
+    }
+    let mut cfg = ClientTlsConfig::new();
+    for op in ops {
+        if let Some(n) = op.strip_prefix("ca:") {
+            cfg = cfg.ca_certificate(Certificate::from_pem(cert_pem(n)?));
+        } else if let Some(ns) = op.strip_prefix("cas:") {
+            let mut v = Vec::new();
+            for n in ns.split('+') {
+                v.push(Certificate::from_pem(cert_pem(n)?));
+            }
+            cfg = cfg.ca_certificates(v);
+        } else if let Some(n) = op.strip_prefix("ta:") {
+            cfg = cfg.trust_anchor(anchor(n)?);
+        } else if let Some(ns) = op.strip_prefix("tas:") {
+            let mut v = Vec::new();
+            for n in ns.split('+') {
+                v.push(anchor(n)?);
+            }
+            cfg = cfg.trust_anchors(v);
+        } else if let Some(d) = op.strip_prefix("dom:") {
+            cfg = cfg.domain_name(host_of(d)?);
+        } else if let Some(i) = op.strip_prefix("id:") {
+            cfg = cfg.identity(Identity::from_pem(cert_pem(i)?, key_pem(i)?));
+        } else if let Some(b) = op.strip_prefix("h2:") {
+            cfg = cfg.assume_http2(b == "1");
+        } else if op == "roots" {
+            cfg = cfg.with_enabled_roots();
+        } else {
+            return None;
+        }
+    }
+    Some(Some(cfg))
+}
+
+fn rustls_server_config(c: &Case) -> Result<rustls::ServerConfig, String> {
+    let provider = Arc::new(rustls::crypto::ring::default_provider());
+    let builder = rustls::ServerConfig::builder_with_provider(provider.clone())
+        .with_safe_default_protocol_versions()
+        .map_err(|e| e.to_string())?;
+    let mut ca: Option<&str> = None;
+    let mut optional = false;
+    for op in &c.sops {
+        if let Some(n) = op.strip_prefix("ca:") {
+            ca = Some(n);
+        } else if let Some(b) = op.strip_prefix("opt:") {
+            optional = b == "1";
+        }
+    }
+    let builder = match ca {
+        None => builder.with_no_client_auth(),
+        Some(n) => {
+            let mut roots = rustls::RootCertStore::empty();
+            for d in ders(cert_pem(n).ok_or("ca")?) {
+                roots.add(CertificateDer::from(d)).map_err(|e| e.to_string())?;
+            }
+            let vb = rustls::server::WebPkiClientVerifier::builder_with_provider(roots.into(), provider);
+            let vb = if optional { vb.allow_unauthenticated() } else { vb };
+            builder.with_client_cert_verifier(vb.build().map_err(|e| e.to_string())?)
+        }
+    };
+    let chain: Vec<CertificateDer<'static>> =
+        ders(cert_pem(&c.servercert).ok_or("cert")?).into_iter().map(CertificateDer::from).collect();
+    let key = PrivateKeyDer::from_pem_slice(key_pem(&c.servercert).ok_or("key")?.as_bytes()).map_err(|e| e.to_string())?;
+    let mut cfg = builder.with_single_cert(chain, key).map_err(|e| e.to_string())?;
+    match c.alpn.as_str() {
+        "none" => {}
+        "http11" => cfg.alpn_protocols.push(b"http/1.1".to_vec()),
+        "h2first" => {
+            cfg.alpn_protocols.push(b"h2".to_vec());
+            cfg.alpn_protocols.push(b"http/1.1".to_vec());
+        }
+        "h2last" => {
+            cfg.alpn_protocols.push(b"http/1.1".to_vec());
+            cfg.alpn_protocols.push(b"h2".to_vec());
+        }
+        "h2only" => cfg.alpn_protocols.push(b"h2".to_vec()),
+        _ => return Err("alpn".into()),
+    }
+    Ok(cfg)
+}
+
+fn classify_err(e: &(dyn std::error::Error + 'static)) -> String {
+    // walk the source chain, looking inside io::Error payloads as well
+    let mut texts = Vec::new();
+    let mut cur: Option<&(dyn std::error::Error + 'static)> = Some(e);
+    let mut depth = 0;
+    while let Some(err) = cur {
+        depth += 1;
+        if depth > 16 {
+            break;
+        }
+        texts.push(err.to_string());
+        if let Some(r) = err.downcast_ref::<rustls::Error>() {
+            return classify_rustls(r);
+        }
+        if let Some(ioe) = err.downcast_ref::<io::Error>() {
+            if let Some(inner) = ioe.get_ref() {
+                if let Some(r) = inner.downcast_ref::<rustls::Error>() {
+                    return classify_rustls(r);
+                }
+                cur = Some(inner);
+                continue;
+            }
+        }
+        cur = err.source();
+    }
+    let all = texts.join(" | ");
+    if all.contains("HTTP/2 was not negotiated") {
+        "h2-not-negotiated".into()
+    } else if all.contains("Connecting to HTTPS without TLS enabled") {
+        "https-without-tls".into()
+    } else {
+        format!("other<{}>", all.replace(' ', "_"))
+    }
+}
+
+fn classify_rustls(r: &rustls::Error) -> String {
+    use rustls::{AlertDescription as A, CertificateError as C, Error as E};
+    match r {
+        E::InvalidCertificate(C::UnknownIssuer) => "server-cert:unknown-issuer".into(),
+        E::InvalidCertificate(C::NotValidForName) => "server-cert:name-mismatch".into(),
+        E::InvalidCertificate(C::NotValidForNameContext { .. }) => "server-cert:name-mismatch".into(),
+        E::InvalidCertificate(o) => format!("server-cert:{:?}", o).replace(' ', "_"),
+        E::AlertReceived(A::NoApplicationProtocol) => "alpn-alert".into(),
+        E::AlertReceived(a) => format!("alert:{:?}", a),
+        o => format!("tls:{:?}", o).replace(' ', "_"),
+    }
+}
+
+type BoxErr = Box<dyn std::error::Error + Send + Sync>;
+
+trait Transport: AsyncRead + AsyncWrite + Connected + ExtCerts + Unpin + Send + Sized + 'static {
+    /// Returns a dial function and the stream of accepted server-side IOs.
+    fn pair() -> Pin<Box<dyn Future<Output = io::Result<(Dialer<Self>, tokio::sync::mpsc::Receiver<Self>)>> + Send>>;
+}
+type Dialer<IO> = Arc<dyn Fn() -> Pin<Box<dyn Future<Output = io::Result<IO>> + Send>> + Send + Sync>;
+
+impl Transport for tokio::net::TcpStream {
+    fn pair() -> Pin<Box<dyn Future<Output = io::Result<(Dialer<Self>, tokio::sync::mpsc::Receiver<Self>)>> + Send>> {
+        Box::pin(async {
+            let l = tokio::net::TcpListener::bind(("127.0.0.1", 0)).await?;
+            let addr = l.local_addr()?;
+            let (tx, rx) = tokio::sync::mpsc::channel(8);
+            tokio::spawn(async move {
+                loop {
+                    tokio::select! {
+                        _ = tx.closed() => break,
+                        a = l.accept() => match a {
+                            Ok((s, _)) => { let _ = s.set_nodelay(true); if tx.send(s).await.is_err() { break; } }
+                            Err(_) => break,
+                        }
+                    }
+                }
+            });
+            let d: Dialer<Self> = Arc::new(move || {
+                Box::pin(async move {
+                    let s = tokio::net::TcpStream::connect(addr).await?;
+                    let _ = s.set_nodelay(true);
+                    Ok(s)
+                })
+            });
+            Ok((d, rx))
+        })
+    }
+}
+
+impl Transport for tokio::io::DuplexStream {
+    fn pair() -> Pin<Box<dyn Future<Output = io::Result<(Dialer<Self>, tokio::sync::mpsc::Receiver<Self>)>> + Send>> {
+        Box::pin(async {
+            let (tx, rx) = tokio::sync::mpsc::channel(8);
+            let d: Dialer<Self> = Arc::new(move || {
+                let tx = tx.clone();
+                Box::pin(async move {
+                    let (a, b) = tokio::io::duplex(1 << 16);
+                    tx.send(b).await.map_err(|_| io::Error::new(io::ErrorKind::ConnectionRefused, "server gone"))?;
+                    Ok(a)
+                })
+            });
+            Ok((d, rx))
+        })
+    }
+}
+
+fn rx_stream<T: Send + 'static>(rx: tokio::sync::mpsc::Receiver<T>) -> impl tokio_stream::Stream<Item = Result<T, io::Error>> {
+    use tokio_stream::StreamExt;
+    tokio_stream::wrappers::ReceiverStream::new(rx).map(Ok)
+}
+
+async fn run_case<IO: Transport>(c: Case) -> String {
+    let obs = Arc::new(Obs::default());
+    // what the client will present, syntactically: the last id: op (the model decides whether a
+    // later `roots` drops it; `presented` is only used to compare contents when certs are seen)
+    let mut presented: Vec<Vec<u8>> = Vec::new();
+    for op in &c.ops {
+        if let Some(i) = op.strip_prefix("id:") {
+            presented = cert_pem(i).map(ders).unwrap_or_default();
+        }
+    }
+    let svc: Svc<IO> = Svc { obs: obs.clone(), presented: Arc::new(presented), _io: Default::default() };
+
+    let (dial, rx) = match IO::pair().await {
+        Ok(p) => p,
+        Err(e) => return format!("harness-error:bind:{}", e.kind()),
+    };
+    let (stop_tx, stop_rx) = tokio::sync::oneshot::channel::<()>();
+    let stop = async move {
+        let _ = stop_rx.await;
+    };
+
+    // ---- server
+    let server_task: tokio::task::JoinHandle<Result<(), String>> = match c.alpn.as_str() {
+        "h2" => {
+            let id = Identity::from_pem(cert_pem(&c.servercert).unwrap_or(""), key_pem(&c.servercert).unwrap_or(""));
+            let mut tls = ServerTlsConfig::new().identity(id);
+            for op in &c.sops {
+                if let Some(n) = op.strip_prefix("ca:") {
+                    tls = tls.client_ca_root(Certificate::from_pem(match cert_pem(n) {
+                        Some(p) => p,
+                        None => return "bad-case".into(),
+                    }));
+                } else if let Some(b) = op.strip_prefix("opt:") {
+                    tls = tls.client_auth_optional(b == "1");
+                } else if let Some(b) = op.strip_prefix("ico:") {
+                    tls = tls.ignore_client_order(b == "1");
+                } else {
+                    return "bad-case".into();
+                }
+            }
+            let b = match Server::builder().tls_config(tls) {
+                Ok(b) => b,
+                Err(e) => return format!("harness-error:server-tls-config:{}", classify_err(&e)),
+            };
+            let mut b = b;
+            let router = b.add_service(svc);
+            tokio::spawn(async move { router.serve_with_incoming_shutdown(rx_stream(rx), stop).await.map_err(|e| e.to_string()) })
+        }
+        "plain" => {
+            // a plaintext HTTP/2 server: anything a client sends in the clear would be served
+            let router = Server::builder().add_service(svc);
+            tokio::spawn(async move { router.serve_with_incoming_shutdown(rx_stream(rx), stop).await.map_err(|e| e.to_string()) })
+        }
+        _ => {
+            let cfg = match rustls_server_config(&c) {
+                Ok(c) => Arc::new(c),
+                Err(e) => return format!("harness-error:rustls-server-config:{}", e.replace(' ', "_")),
+            };
+            let acceptor = tokio_rustls::TlsAcceptor::from(cfg);
+            let (ttx, trx) = tokio::sync::mpsc::channel::<tokio_rustls::server::TlsStream<IO>>(8);
+            let mut rx = rx;
+            tokio::spawn(async move {
+                while let Some(io) = rx.recv().await {
+                    let acceptor = acceptor.clone();
+                    let ttx = ttx.clone();
+                    tokio::spawn(async move {
+                        if let Ok(s) = acceptor.accept(io).await {
+                            let _ = ttx.send(s).await;
+                        }
+                    });
+                }
+            });
+            // Svc<IO> looks up TlsConnectInfo<IO::ConnectInfo>, which is what TlsStream<IO> yields
+            let router = Server::builder().add_service(svc);
+            tokio::spawn(async move { router.serve_with_incoming_shutdown(rx_stream(trx), stop).await.map_err(|e| e.to_string()) })
+        }
+    };
+
+    // ---- client
+    let log = Arc::new(Mutex::new(TapLog::default()));
+    let dials = Arc::new(AtomicUsize::new(0));
+    let host = match host_of(&c.urihost) {
+        Some(h) => h,
+        None => return "bad-case".into(),
+    };
+    let uri = format!("{}://{}:50051", c.scheme, host);
+    let mut cfg_state = "ok".to_string();
+    let ep = if c.ops.len() == 1 && c.ops[0] == "auto" {
+        // the entry point generated `connect` functions use
+        match Endpoint::new(uri) {
+            Ok(e) => Some(e),
+            Err(e) => {
+                cfg_state = format!("err:{}", classify_cfg_err(&e));
+                None
+            }
+        }
+    } else {
+        let ep = match Endpoint::from_shared(uri) {
+            Ok(e) => e,
+            Err(_) => return "bad-case".into(),
+        };
+        match build_client_cfg(&c.ops) {
+            None => return "bad-case".into(),
+            Some(None) => Some(ep),
+            Some(Some(t)) => match ep.tls_config(t) {
+                Ok(e) => Some(e),
+                Err(e) => {
+                    cfg_state = format!("err:{}", classify_cfg_err(&e));
+                    None
+                }
+            },
+        }
+    };
+    let mut res = "fail:config".to_string();
+    if let Some(ep) = ep {
+        let connector = {
+            let log = log.clone();
+            let dials = dials.clone();
+            let dial = dial.clone();
+            tower::service_fn(move |_uri: http::Uri| {
+                let log = log.clone();
+                let dial = dial.clone();
+                dials.fetch_add(1, Ordering::SeqCst);
+                async move {
+                    let io = dial().await?;
+                    Ok::<_, BoxErr>(hyper_util::rt::TokioIo::new(Tap { inner: io, log }))
+                }
+            })
+        };
+        res = match ep.connect_with_connector(connector).await {
+            Err(e) => format!("fail:{}", classify_err(&e)),
+            Ok(ch) => {
+                let mut grpc = tonic::client::Grpc::new(ch);
+                match grpc.ready().await {
+                    Err(e) => format!("fail:{}", classify_err(&e)),
+                    Ok(()) => {
+                        let path = http::uri::PathAndQuery::from_static("/verif.Tls/Call");
+                        let codec = tonic::codec::ProstCodec::<String, String>::default();
+                        match grpc.unary(tonic::Request::new(MARKER.to_string()), path, codec).await {
+                            Ok(r) if r.get_ref() == &format!("echo:{}", MARKER) => "ok".into(),
+                            Ok(_) => "fail:wrong-reply".into(),
+                            Err(st) => format!("fail:{}", classify_status(&st)),
+                        }
+                    }
+                }
+            }
+        };
+    }
+    // let the server finish whatever it is doing with this connection
+    let _ = stop_tx.send(());
+    drop(dial);
+    let _ = tokio::time::timeout(Duration::from_secs(5), server_task).await;
+
+    let l = log.lock().unwrap();
+    let plain = contains(&l.written, H2_PREFACE) || contains(&l.written, MARKER.as_bytes());
+    let runs = obs.runs.load(Ordering::SeqCst);
+    let peer = obs.peer.lock().unwrap();
+    let peer_s = if peer.is_empty() { "peer=- ext=-".to_string() } else { peer.join(",") };
+    format!(
+        "cfg={} res={} h={} {} plain={} dial={}",
+        cfg_state,
+        canonical_res(&res),
+        runs,
+        peer_s,
+        plain as u8,
+        (dials.load(Ordering::SeqCst) > 0) as u8
+    )
+}
+
+/// Failure classes the model speaks about. A failure that surfaces only after tonic's own
+/// client-side checks passed (TLS 1.3: the server judges the client certificate after the
+/// client side of the handshake is complete, so it shows up as an alert / reset / cancelled
+/// call, timing-dependent) is the single class `rejected`.
+fn canonical_res(res: &str) -> String {
+    if std::env::var("VERIF_C15_DEBUG").is_ok() {
+        return res.to_string();
+    }
+    let Some(class) = res.strip_prefix("fail:") else {
+        return res.to_string();
+    };
+    let c = match class {
+        "config" | "https-without-tls" | "alpn-alert" | "h2-not-negotiated" | "wrong-reply"
+        | "server-cert:unknown-issuer" | "server-cert:name-mismatch" => class,
+        x if x.starts_with("server-cert:") => "server-cert:other",
+        x if x.starts_with("tls:") => "tls-error",
+        _ => "rejected",
+    };
+    format!("fail:{}", c)
+}
+
+fn classify_cfg_err(e: &(dyn std::error::Error + 'static)) -> String {
+    let mut texts = vec![e.to_string()];
+    let mut cur = e.source();
+    while let Some(s) = cur {
+        texts.push(s.to_string());
+        cur = s.source();
+    }
+    let all = texts.join(" | ");
+    if all.contains("invalid dns name") || all.contains("InvalidDnsName") {
+        "invalid-dns-name".into()
+    } else if all.contains("Error parsing TLS certificate") {
+        "cert-parse".into()
+    } else if all.contains("Error parsing TLS private key") {
+        "key-parse".into()
+    } else {
+        format!("other<{}>", all.replace(' ', "_"))
+    }
+}
+
+fn classify_status(st: &tonic::Status) -> String {
+    use std::error::Error;
+    if let Some(src) = st.source() {
+        let c = classify_err(src);
+        if !c.starts_with("other<") {
+            return c;
+        }
+    }
+    if std::env::var("VERIF_C15_DEBUG").is_ok() {
+        return format!("status:{:?}<{:?}>", st.code(), st).replace(' ', "_");
+    }
+    format!("status:{:?}", st.code())
+}
+
+pub fn execute(case: &str) -> String {
+    let c = match parse(case) {
+        Some(c) => c,
+        None => return "bad-case".into(),
+    };
+    let rt = tokio::runtime::Builder::new_current_thread().enable_all().build().unwrap();
+    let out = rt.block_on(async move {
+        let fut: Pin<Box<dyn Future<Output = String> + Send>> = match c.transport.as_str() {
+            "tcp" => Box::pin(run_case::<tokio::net::TcpStream>(c)),
+            "duplex" => Box::pin(run_case::<tokio::io::DuplexStream>(c)),
+            _ => return "bad-case".to_string(),
+        };
+        match tokio::time::timeout(Duration::from_secs(20), fut).await {
+            Ok(s) => s,
+            Err(_) => "hang".into(),
+        }
+    });
+    rt.shutdown_timeout(Duration::from_millis(200));
+    out
+}
+
+pub fn generate(_tier: &str, _rng: &mut Rng) -> Vec<String> {
+    let mut out = Vec::new();
+    for roots in ["ca:ca1", "ca:ca2", ""] {
+        for dom in ["dom:good", "dom:bad", ""] {
+            for alpn in ["h2", "none", "http11"] {
+                for assume in ["h2:0", "h2:1"] {
+                    for cauth in ["-", "ca:ca1", "ca:ca1+opt:1"] {
+                        for id in ["", "id:c1", "id:c2"] {
+                            let ops: Vec<&str> = [roots, dom, id, assume].into_iter().filter(|s| !s.is_empty()).collect();
+                            out.push(format!("tls https good {} ; s1good {} {} tcp", ops.join(" "), alpn, cauth));
+                        }
+                    }
+                }
+            }
+        }
+    }
+    out
 }
